@@ -21,6 +21,13 @@ type ObsPP struct {
 
 	FailBefore, FailAfter, FailEarly, FailInst string // component name on which the callback fails
 	FailProps, FailBeforeInst                  string
+
+	// InstLookup: while component <key> is being populated (after-instantiation callback) the processor fetches
+	// component <value> from the container, like a processor that resolves its own collaborators programmatically.
+	InstLookup map[string]string
+	Lookup     func(name string) (any, error)
+	InstLooked []string
+	NoBudget   bool // creations are repeated on purpose (retries after failures): no once-per-name budget
 }
 
 func (o *ObsPP) Naming() string { return "obs-pp-" + o.Tag }
@@ -61,10 +68,14 @@ func (o *ObsPP) PostProcessAfterInstantiation(c any, name string) (bool, error) 
 		o.Created = map[string]int{}
 	}
 	o.Created[name]++
-	if o.Created[name] > 1 {
+	if o.Created[name] > 1 && !o.NoBudget {
 		panic(BudgetExceeded{fmt.Sprintf("component %q is being created for the %d. time in one start", name, o.Created[name])})
 	}
 	o.Log.Add(zoo.Event{Kind: "inst", ID: o.id(c), Name: name, Note: o.Tag})
+	if target, ok := o.InstLookup[name]; ok && o.Lookup != nil {
+		_, err := o.Lookup(target)
+		o.InstLooked = append(o.InstLooked, fmt.Sprintf("%s->%s err=%v", name, target, err != nil))
+	}
 	if o.FailInst != "" && o.FailInst == name {
 		return false, zoo.ErrInjected
 	}
@@ -97,6 +108,11 @@ type PriorityObsPP struct{ ObsPP }
 
 func (o *PriorityObsPP) Order() int { return o.OrderV }
 func (o *PriorityObsPP) Priority()  {}
+
+// MarkerObsPP carries the Priority marker but has no Order method: it is an unordered participant.
+type MarkerObsPP struct{ ObsPP }
+
+func (o *MarkerObsPP) Priority() {}
 
 // ---------------------------------------------------------------------------
 // WrapPP: substituting post-processor. Plan per component name.
